@@ -159,6 +159,34 @@ Definition default_int (k : N) (default_value : option string) : Z :=
   | None => 0%Z
   end.
 
+(* ---- text names: fldDescriptor.TextName / looksLikeGroup ---- *)
+(* strings.ToLower on an identifier (ASCII letters, digits, underscore: what the lexer accepts): A-Z to a-z *)
+Definition ascii_lower (c : ascii) : ascii :=
+  let n := N_of_ascii c in if (65 <=? n) && (n <=? 90) then ascii_of_N (n + 32) else c.
+Fixpoint to_lower (s : string) : string :=
+  match s with
+  | EmptyString => EmptyString
+  | String c r => String (ascii_lower c) (to_lower r)
+  end.
+
+(* the names the text name of a field is computed from: proto.GetName(), FullName(), FullName().Parent(), and of the
+   resolved type_name its last component and its Parent() (both empty strings when the field has no message type) *)
+Record fnames := mknames {
+  n_name : string; n_full : string; n_parent : string; n_msg_name : string; n_msg_parent : string }.
+
+(* fldDescriptor.looksLikeGroup: group kind, the message type has the same parent NAME, and the field's name IS the
+   lower-cased message name (a case-sensitive comparison with the lower-cased name: a field that equals the message
+   name only when case is ignored is not group-like) *)
+Definition looks_like_group (f : field) (nm : fnames) : bool :=
+  (kind f =? TYPE_GROUP) && String.eqb (n_msg_parent nm) (n_parent nm)
+  && String.eqb (n_name nm) (to_lower (n_msg_name nm)).
+
+(* fldDescriptor.TextName *)
+Definition text_name (f : field) (nm : fnames) : string :=
+  if f_is_ext f then ("[" ++ n_full nm ++ "]")%string
+  else if looks_like_group f nm then n_msg_name nm
+  else n_name nm.
+
 (* ---- the code before the repairs, kept for the historical refutations in Proofs/Features.v ---- *)
 (* IsClosed compared with CLOSED *)
 Definition is_closed_old (edition : N) (c : chain) : bool :=
